@@ -8,8 +8,11 @@ package checks
 import (
 	"bytes"
 	"encoding/gob"
+	"errors"
 	"fmt"
 	"io"
+	"net/http"
+	"net/http/httptest"
 	"os"
 	"os/exec"
 	"path/filepath"
@@ -125,6 +128,41 @@ func c10Exec(c C10Case) (bad string, cpu time.Duration, alloc uint64) {
 		w := c10Registry(c.Cfg).Writer(c.MT, io.Discard)
 		w.Write(in)
 		w.Close()
+	case "respwriter", "middleware":
+		// the HTTP wrappers, also with minifiers that give up before they read anything (the handler's Write and the
+		// wrapper's Close must still return)
+		m := c10Registry(c.Cfg)
+		m.AddFunc("text/x-failfast", func(_ *minify.M, _ io.Writer, _ io.Reader, _ map[string]string) error {
+			return errors.New("c10: not today")
+		})
+		m.AddFunc("text/x-halfread", func(_ *minify.M, w io.Writer, r io.Reader, _ map[string]string) error {
+			b := make([]byte, 3)
+			r.Read(b)
+			w.Write(b)
+			return errors.New("c10: lost interest")
+		})
+		handler := http.HandlerFunc(func(w http.ResponseWriter, _ *http.Request) {
+			w.Header().Set("Content-Type", c.MT)
+			for p := 0; p < len(in); p += 4096 {
+				e := p + 4096
+				if e > len(in) {
+					e = len(in)
+				}
+				w.Write(in[p:e])
+			}
+			if len(in) == 0 {
+				w.Write(nil)
+			}
+		})
+		req := httptest.NewRequest("GET", "http://example.com/x", nil)
+		rec := httptest.NewRecorder()
+		if c.Kind == "respwriter" {
+			mw := m.ResponseWriter(rec, req)
+			handler.ServeHTTP(mw, req)
+			mw.Close()
+		} else {
+			m.Middleware(handler).ServeHTTP(rec, req)
+		}
 	}
 	return "", 0, 0
 }
@@ -395,6 +433,14 @@ func c10BuildCases(run *core.Run) []C10Case {
 			cases = append(cases, C10Case{Kind: "DataURI", Cfg: cut % 6, Input: []byte(pre), Label: fmt.Sprintf("prefix(uri#%d,%d)", ui, cut)})
 			cases = append(cases, C10Case{Kind: "minify", MT: "text/css", Cfg: cut % 6, Input: []byte("a{b:url(" + pre + ")}c{d:url(\"" + pre + "\")}"), Label: fmt.Sprintf("css-prefix(uri#%d,%d)", ui, cut)})
 			cases = append(cases, C10Case{Kind: "minify", MT: "text/html", Cfg: cut % 6, Input: []byte("<img src=\"" + pre + "\"><a href='" + pre + "'>x</a>"), Label: fmt.Sprintf("html-prefix(uri#%d,%d)", ui, cut)})
+		}
+	}
+	// 1c. HTTP wrappers: ordinary bodies and minifiers that fail early
+	for i, mt := range []string{"text/x-failfast", "text/x-halfread", "text/html", "text/css", "application/json", "text/x-failfast; a=b", "text/unknown"} {
+		for j, body := range [][]byte{[]byte("x"), bytes.Repeat([]byte("<p>some body text</p>\n"), 600), nil, bytes.Repeat([]byte("{\"a\":1} "), 20000)} {
+			for _, kind := range []string{"respwriter", "middleware"} {
+				cases = append(cases, C10Case{Kind: kind, MT: mt, Cfg: (i + j) % 4, Input: body, Label: fmt.Sprintf("http(%s,body#%d)", mt, j)})
+			}
 		}
 	}
 	// 2. helpers on hostile input
